@@ -78,7 +78,7 @@ func c04Gen(r *Rand, tier string) interface{} {
 			in.Chunks = append(in.Chunks, r.Pick(0, 1, 3, 16, 500))
 		}
 		for k := r.Intn(3); k > 0; k-- {
-			in.ReadBufs = append(in.ReadBufs, r.Pick(1, 2, 7, 64, 5000))
+			in.ReadBufs = append(in.ReadBufs, r.Pick(0, 1, 2, 7, 64, 5000))
 		}
 		in.Short = r.Chance(1, 3)
 		return in
